@@ -406,6 +406,13 @@ func (vc *VC) evalAddr(st *State, x *ast.UnaryExpr) Term {
 		return r
 	case *ast.ParenExpr:
 		return vc.evalAddr(st, &ast.UnaryExpr{Op: token.AND, X: in.X, OpPos: x.OpPos})
+	case *ast.SelectorExpr:
+		// &x.f as a call argument: temporary cell, written back after the call (see evalCallWith)
+		v := vc.evalExpr(st, in)
+		r := vc.alloc(st, t)
+		vc.storeDeref(st, et, r.S, vc.coerce(v, et))
+		st.fieldWB = append(st.fieldWB, fieldWriteBack{cell: r, lhs: in})
+		return r
 	}
 	vc.fail(x, "unsupported address-of %s", exprString(x))
 	return Term{}
@@ -606,8 +613,13 @@ func (vc *VC) assignSliceElemTarget(st *State, target ast.Expr, nv Term) {
 
 func (vc *VC) checkImmutableWrite(st *State, structT types.Type, ref string, at ast.Node) {
 	if n, ok := structT.(*types.Named); ok && vc.p.con.Immutable[n.Obj().Name()] {
-		vc.oblige(st, "immutable", "write to "+n.Obj().Name()+" only on objects allocated in this activation", vc.pos(at),
-			"(>= "+ref+" alloc@0)", nil)
+		goal := "(>= " + ref + " alloc@0)"
+		for _, c := range vc.constructing {
+			// objects handed over by the caller as still unshared (requires callerfresh(p)) may be filled in
+			goal = or(goal, eq(ref, c))
+		}
+		vc.oblige(st, "immutable", "write to "+n.Obj().Name()+" only on objects allocated in this activation (or handed over unshared by the caller)", vc.pos(at),
+			goal, nil)
 	}
 }
 
